@@ -36,6 +36,7 @@ class Loop:
     line: int
     kind: str = "for"   # for | while | comp
     bvals: dict = field(default_factory=dict)
+    nguards: int = 0    # number of (atomic) guards in force where the loop statement stands
 
 
 @dataclass
@@ -497,22 +498,7 @@ class Flow:
         if not rets or any(f.kind in ("store", "augstore", "attrstore", "append", "mutate") for f in sub.facts):
             return None
 
-        def build(rs):
-            if len(rs) == 1 and not rs[0][1]:
-                return rs[0][0]
-            conds = [g[0] for v, gs in rs for g in gs[:1]]
-            if not conds or any(not gs for v, gs in rs):
-                return None
-            c = conds[0]
-            t = [(v, gs[1:]) for v, gs in rs if gs[0] == (c, True)]
-            e = [(v, gs[1:]) for v, gs in rs if gs[0] == (c, False)]
-            if len(t) + len(e) != len(rs) or not t or not e:
-                return None
-            a, b = build(t), build(e)
-            if a is None or b is None:
-                return None
-            return ("phi", c, a, b)
-        return build(rets)
+        return phi_of_paths(rets)
 
     # ---- binding ----------------------------------------------------------
     def bind(self, target, value, node):
@@ -727,7 +713,7 @@ class Flow:
 
     def s_For(self, s):
         it = strip_transparent(self.ev(s.iter))
-        lp = Loop(next(self._uid), it, ast.unparse(s.target), s.lineno)
+        lp = Loop(next(self._uid), it, ast.unparse(s.target), s.lineno, nguards=len(self._guards()))
         self.all_loops[lp.id] = lp
         assigned = self._carry(s.body, lp)
         pre = dict(self.env)
@@ -854,6 +840,49 @@ class Flow:
 
     def s_Nonlocal(self, s):
         pass
+
+
+def phi_of_paths(rs):
+    """[(value, [atomic guards])] of the mutually exclusive paths of a decision tree -> the value as nested phi, or None when the
+    guards do not form a complete binary tree (a path missing, two values on one path)."""
+    if len(rs) == 1 and not rs[0][1]:
+        return rs[0][0]
+    conds = [g[0] for v, gs in rs for g in gs[:1]]
+    if not conds or any(not gs for v, gs in rs):
+        return None
+    c = conds[0]
+    t = [(v, gs[1:]) for v, gs in rs if gs[0] == (c, True)]
+    e = [(v, gs[1:]) for v, gs in rs if gs[0] == (c, False)]
+    if len(t) + len(e) != len(rs) or not t or not e:
+        return None
+    a, b = phi_of_paths(t), phi_of_paths(e)
+    if a is None or b is None:
+        return None
+    return ("phi", c, a, b)
+
+
+def loop_built_seq(fl, name):
+    """A local list created empty and then filled by ONE for-loop whose every iteration appends exactly one element -- on each path
+    through the body (`t = a; if c: t = g(t); X.append(t)`, `if c: X.append(a); continue; X.append(b)`) -- is the comprehension
+    `[elt for <targets> in <iter>]` written as a loop.  -> (Loop, elt) with the loop targets appearing in elt as elem/idx of that
+    loop (the form expand_bvals gives a comprehension), or None when the list is built in any other way."""
+    inits = [f for f in fl.facts if f.kind == "init" and f.target == name]
+    muts = [f for f in fl.facts if f.target == name and f.kind in ("store", "augstore", "append", "remove", "mutate")]
+    if len(inits) != 1 or inits[0].loops or not muts:
+        return None
+    iv = simp(inits[0].value)
+    if iv not in (("list", ()), ("call", ("global", "list"), (), ())):
+        return None
+    if any(f.kind != "append" or f.op != "append" or len(f.loops) != 1 or f.loops[0] is not muts[0].loops[0] or f.seq < inits[0].seq for f in muts):
+        return None
+    lp = muts[0].loops[0]
+    if lp.kind != "for" or any(f.kind in ("break", "return") and lp in f.loops for f in fl.facts):
+        return None
+    elt = phi_of_paths([(f.value, list(f.guards[lp.nguards:])) for f in muts])
+    if elt is None or any(isinstance(x, tuple) and len(x) == 3 and x[0] in ("carried", "after") and x[2] == lp.id for x in walk(elt)) \
+            or any(x == ("acc", name) for x in walk(elt)):
+        return None
+    return lp, elt
 
 
 def _terminates(stmts) -> bool:
